@@ -189,7 +189,7 @@ func getValues(file, solver string, names []string) ([]string, error) {
 	mf := file + ".val.smt2"
 	os.WriteFile(mf, []byte(txt), 0o644)
 	defer os.Remove(mf)
-	bin := solver
+	bin := strings.SplitN(solver, "/", 2)[0] // portfolio variants share the binary
 	var args []string
 	switch solver {
 	case "cvc5":
